@@ -10,7 +10,7 @@ use hickory_proto::rr::{Name, RData, Record, RecordType};
 use hickory_proto::serialize::binary::BinEncodable;
 use hickory_server::dnssec::NxProofKind;
 use vsec::hier::{Hierarchy, ZoneDef};
-use vsec::keys::{self, KeyMat, F_KSK, F_ZSK};
+use vsec::keys::{self, KeyMat, F_KSK};
 use vsec::n;
 
 pub const T0: u64 = 1_700_000_000;
@@ -52,6 +52,8 @@ fn leaf_records(zone: &str, ip3: u8) -> Vec<Record> {
         a(&format!("www.{zone}"), [192, 0, 2, ip3]),
         txt(&format!("txt.{zone}"), "published"),
         a(&format!("*.w.{zone}"), [192, 0, 2, 200]),
+        // an explicit name below the wildcard's parent: the wildcard must NOT answer for it
+        a(&format!("c.x.w.{zone}"), [192, 0, 2, 77]),
     ]
 }
 
@@ -73,6 +75,7 @@ fn std_queries(leaf: &str) -> Vec<(Name, RecordType)> {
         (n(&format!("www.{leaf}")), RecordType::AAAA),
         (n(&format!("nx.{leaf}")), RecordType::A),
         (n(&format!("a.b.w.{leaf}")), RecordType::A),
+        (n(&format!("c.x.w.{leaf}")), RecordType::A),
         (n(leaf), RecordType::DS),
         (n(leaf), RecordType::DNSKEY),
         (n(leaf), RecordType::NS),
@@ -100,9 +103,10 @@ pub fn names(thorough: bool) -> Vec<&'static str> {
         "leaf-unsigned-nsec3",
         "leaf-unsigned-nsec3-optout",
         "signed-next-to-insecure",
-        "ksk-zsk-split",
+        "two-keys-ds-for-one",
         "ds-unsupported-algorithm-only",
         "island",
+        "key-tag-collision",
     ];
     if thorough {
         v.extend(["tld-unsigned", "two-ds-one-unsupported-digest", "p256-and-rsa"]);
@@ -160,13 +164,14 @@ pub fn build(name: &str) -> Hier {
             q.push((n("www.u."), RecordType::A));
             finish(Hierarchy::build(name, &[root, t, u, e], &[(0, 0)]), q, Some("x.u."), Some("www.e."))
         }
-        // every zone has a KSK (DS / anchor) and a ZSK
-        "ksk-zsk-split" => {
-            let root = ZoneDef { origin: Name::root(), keys: vec![root_key, (ed[4], F_ZSK)], nx: nsec.clone(), records: vec![ns("t."), ds_for("t.", ed[1], F_KSK), ns("u.")] };
+        // every zone has two keys; only the first has a DS / is the trust anchor (the real server
+        // publishes every key with flags 257 and signs every RRset with every key)
+        "two-keys-ds-for-one" => {
+            let root = ZoneDef { origin: Name::root(), keys: vec![root_key, (ed[4], F_KSK)], nx: nsec.clone(), records: vec![ns("t."), ds_for("t.", ed[1], F_KSK), ns("u.")] };
             let mut trec = leaf_records("t.", 10);
             trec.extend([ns("l.t."), ds_for("l.t.", ed[2], F_KSK)]);
-            let t = ZoneDef { origin: n("t."), keys: vec![(ed[1], F_KSK), (ed[5], F_ZSK)], nx: nsec.clone(), records: trec };
-            let l = ZoneDef { origin: n("l.t."), keys: vec![(ed[2], F_KSK), (ed[6], F_ZSK)], nx: nsec, records: leaf_records("l.t.", 20) };
+            let t = ZoneDef { origin: n("t."), keys: vec![(ed[1], F_KSK), (ed[5], F_KSK)], nx: nsec.clone(), records: trec };
+            let l = ZoneDef { origin: n("l.t."), keys: vec![(ed[2], F_KSK), (ed[6], F_KSK)], nx: nsec, records: leaf_records("l.t.", 20) };
             let u = ZoneDef { origin: n("u."), keys: vec![], nx: None, records: leaf_records("u.", 40) };
             finish(Hierarchy::build(name, &[root, t, l, u], &[(0, 0)]), std_queries("l.t."), Some("x.u."), None)
         }
@@ -189,6 +194,14 @@ pub fn build(name: &str) -> Hier {
             let mut q = std_queries("l.t.");
             q.push((n("www.t."), RecordType::A));
             finish(Hierarchy::build(name, &[root, t, l], &[(0, 0)]), q, Some("x.l.t."), None)
+        }
+        // t. is signed with keys/tag0; the attacker holds keys/tag1: same algorithm,
+        // same key tag, different key
+        "key-tag-collision" => {
+            let root = ZoneDef { origin: Name::root(), keys: vec![root_key], nx: nsec.clone(), records: vec![ns("t."), ds_for("t.", keys::TAG[0], F_KSK), ns("u.")] };
+            let t = ZoneDef { origin: n("t."), keys: vec![(keys::TAG[0], F_KSK)], nx: nsec, records: leaf_records("t.", 10) };
+            let u = ZoneDef { origin: n("u."), keys: vec![], nx: None, records: leaf_records("u.", 40) };
+            finish(Hierarchy::build(name, &[root, t, u], &[(0, 0)]), std_queries("t."), Some("x.u."), None)
         }
         "tld-unsigned" => {
             let root = ZoneDef { origin: Name::root(), keys: vec![root_key], nx: nsec.clone(), records: vec![ns("t."), ns("e."), ds_for("e.", ed[3], F_KSK)] };
